@@ -423,4 +423,79 @@ def run (v : Variant) : St → List Ev → St × List Out
     let (s', outs) := run v r.st es
     (s', r.outs ++ outs)
 
+
+/-! ### a client: `MemoryTester` (cflib/crazyflie/mem/memory_tester.py)
+
+`read_data` / `write_data` go through `Memory.read` / `Memory.write(..., flush_queue=True)`; `new_data` / `write_done`
+are registered on `mem_read_cb` / `mem_write_cb` and react to the notifications. -/
+
+structure Tester where
+  id : Nat
+  updateCb : Option Nat     -- self._update_finished_cb (identified by a number)
+  writeCb : Option Nat      -- self._write_finished_cb
+  valid : Bool              -- self.readValidationSucess
+  deriving DecidableEq, Repr
+
+def Tester.new (id : Nat) : Tester := { id := id, updateCb := none, writeCb := none, valid := true }
+
+/-- what the tester's callbacks did -/
+inductive TOut
+  | updateFinished (cb : Nat)          -- update_finished_cb(self)
+  | writeFinished (cb addr : Nat)      -- write_finished_cb(self, addr)
+  deriving DecidableEq, Repr
+
+/-- the byte `MemoryTester` expects / writes at `address`: `(start_address + i) & 0xff` -/
+def testerByte (address : Nat) : UInt8 := UInt8.ofNat (address % 256)
+
+/-- `MemoryTester.read_data(start_address, size, update_finished_cb)` -/
+def testerRead (s : St) (t : Tester) (tag start size cb : Nat) : Tester × Step :=
+  -- if not self._update_finished_cb: self._update_finished_cb = cb; self.mem_handler.read(self, start, size)
+  match t.updateCb with
+  | some _ => (t, ⟨s, [], .ret none⟩)
+  | none => ({ t with updateCb := some cb }, { memRead s tag t.id start size with res := .ret none })
+
+/-- `MemoryTester.write_data(start_address, size, write_finished_cb)` -/
+def testerWrite (v : Variant) (s : St) (t : Tester) (tag start size cb : Nat) : Tester × Step :=
+  -- self._write_finished_cb = cb; data = bytes((start + i) & 0xff); self.mem_handler.write(self, start, data, flush_queue=True)
+  let data := (List.range size).map fun i => testerByte (start + i)
+  ({ t with writeCb := some cb }, { memWrite v s tag t.id start data true false with res :=
+      match (memWrite v s tag t.id start data true false).res with
+      | .ret _ => .ret none
+      | r => r })
+
+/-- the loop of `MemoryTester.new_data(mem, start_address, data)` for `mem.id == self.id`: every byte is compared
+with the expected pattern; the finished callback is invoked (and cleared) INSIDE the loop, i.e. on the first byte -
+never for empty data -/
+def testerNewDataLoop (start : Nat) : List UInt8 → Nat → Tester → Tester × List TOut
+  | [], _, t => (t, [])
+  | b :: bs, i, t =>
+    let t1 := if b ≠ testerByte (start + i) then { t with valid := false } else t
+    match t1.updateCb with
+    | some cb =>
+      let r := testerNewDataLoop start bs (i + 1) { t1 with updateCb := none }
+      (r.1, .updateFinished cb :: r.2)
+    | none => testerNewDataLoop start bs (i + 1) t1
+
+def testerNewData (t : Tester) (memId start : Nat) (data : List UInt8) : Tester × List TOut :=
+  if memId = t.id then testerNewDataLoop start data 0 t else (t, [])
+
+/-- `MemoryTester.write_done(mem, addr)` -/
+def testerWriteDone (t : Tester) (memId addr : Nat) : Tester × List TOut :=
+  match t.writeCb with
+  | some cb => if memId = t.id then ({ t with writeCb := none }, [.writeFinished cb addr]) else (t, [])
+  | none => (t, [])
+
+/-- the tester's reaction to the notifications of one event, in order -/
+def testerReact (t : Tester) : List Out → Tester × List TOut
+  | [] => (t, [])
+  | .readOk _ i a d :: os =>
+    let r := testerNewData t i a d
+    let r2 := testerReact r.1 os
+    (r2.1, r.2 ++ r2.2)
+  | .writeOk _ i a :: os =>
+    let r := testerWriteDone t i a
+    let r2 := testerReact r.1 os
+    (r2.1, r.2 ++ r2.2)
+  | _ :: os => testerReact t os
+
 end CfVerif.C06
